@@ -29,4 +29,7 @@ def obligations(tier):
                           {"legacy": legacy, "nfiles": 2, "npat": 2, "order_lo": lo, "order_hi": lo + 3}, timeout=t))
             obs.append(Ob(f"L2.dry_agrees_with_real[{eng}, orders {lo}..{lo + 3}]", "c06.py", "dry_agrees_with_real",
                           {"legacy": legacy, "nfiles": 2, "npat": 2, "order_lo": lo, "order_hi": lo + 3}, timeout=t))
+        # a file whose only pattern is a partial one that this bump does not change, holding a stale value
+        obs.append(Ob(f"L2.dry_shows_what_is_written[{eng}, partial pattern in a stale file]", "c06.py", "dry_shows_what_is_written",
+                      {"legacy": legacy, "nfiles": 2, "npat": 2, "order_lo": 0, "order_hi": 1, "partial": True}, timeout=t))
     return obs
